@@ -485,6 +485,12 @@ class Key(CryptographicObject):
         # unsupported by kmip.core
         self._usage_limits = None
 
+    @staticmethod
+    def _has_values(fields):
+        # A field set to a falsy value (False, 0) is still set; only unset
+        # fields (None) and empty sub-structures count as missing.
+        return any(v is not None and v != {} for v in fields.values())
+
     @property
     def key_wrapping_data(self):
         """
@@ -514,9 +520,10 @@ class Key(CryptographicObject):
                     self._kdw_eki_cp_initial_counter_value
             }
         }
-        if not any(encryption_key_info['cryptographic_parameters'].values()):
+        if not self._has_values(
+                encryption_key_info['cryptographic_parameters']):
             encryption_key_info['cryptographic_parameters'] = {}
-        if not any(encryption_key_info.values()):
+        if not self._has_values(encryption_key_info):
             encryption_key_info = {}
 
         mac_sign_key_info = {
@@ -541,9 +548,10 @@ class Key(CryptographicObject):
                     self._kdw_mski_cp_initial_counter_value
             }
         }
-        if not any(mac_sign_key_info['cryptographic_parameters'].values()):
+        if not self._has_values(
+                mac_sign_key_info['cryptographic_parameters']):
             mac_sign_key_info['cryptographic_parameters'] = {}
-        if not any(mac_sign_key_info.values()):
+        if not self._has_values(mac_sign_key_info):
             mac_sign_key_info = {}
 
         key_wrapping_data['wrapping_method'] = self._kdw_wrapping_method
@@ -552,7 +560,7 @@ class Key(CryptographicObject):
         key_wrapping_data['mac_signature'] = self._kdw_mac_signature
         key_wrapping_data['iv_counter_nonce'] = self._kdw_iv_counter_nonce
         key_wrapping_data['encoding_option'] = self._kdw_encoding_option
-        if not any(key_wrapping_data.values()):
+        if not self._has_values(key_wrapping_data):
             key_wrapping_data = {}
 
         return key_wrapping_data
